@@ -123,7 +123,7 @@ func RunOrder(p *Plan, o ExecOpts) (*ExecOut, error) {
 		return nil, fmt.Errorf("building maporder: %v\n%s", err, out)
 	}
 	ovDir := filepath.Join(tmp, "ov")
-	mout, err := run(mcDir, filepath.Join(binDir, "maporder"), "-repo", "/repo", "-out", ovDir)
+	mout, err := run(mcDir, filepath.Join(binDir, "maporder"), "-repo", RepoDir(), "-out", ovDir)
 	if err != nil {
 		return nil, fmt.Errorf("maporder failed (a map iteration the rewriter cannot own?): %v\n%s", err, mout)
 	}
